@@ -111,6 +111,8 @@ structure Watch where
   pid : Int := 0
   wstatus : Int := 0
   puser : Nat := 0
+  /-- `process.notify` (repaired `tickit_watch_process`): the deferred callback that will deliver a pre-exited child -/
+  notify : Option Nat := none
 deriving DecidableEq, Repr, Inhabited
 
 /-- Why a history left defined behaviour (which read touched freed memory). -/
@@ -194,6 +196,13 @@ structure Config where
   sigSnapshot : Bool
   /-- `on_sigchld` walks a snapshot of `t->processes` and skips entries no longer linked. -/
   procSnapshot : Bool
+  /-- `tickit_watch_cancel` of a deferred callback that is not in `t->laters` (its batch has been detached by the
+      running iteration) notifies it and marks it `WATCH_NONE`; `tickit_evloop_invoke_timers` skips marked entries. -/
+  laterCancelMarks : Bool := false
+  /-- `tickit_watch_process` links the watch of an already exited child into `t->processes` like any other and
+      remembers the deferred callback that will deliver it (`process.notify`); `tickit_watch_cancel` of the watch
+      cancels that deferred callback; `process_notify` clears the pointer. -/
+  processLinked : Bool := false
 deriving DecidableEq, Repr, Inhabited
 
 def Config.shipped : Config :=
@@ -201,7 +210,8 @@ def Config.shipped : Config :=
     invokeTypeSaved := false, sigSnapshot := false, procSnapshot := false }
 def Config.repaired : Config :=
   { ioFlagMask := 6, timersPop := true, errnoSaved := true, pendingInit := true, reventsCleared := true,
-    invokeTypeSaved := true, sigSnapshot := true, procSnapshot := true }
+    invokeTypeSaved := true, sigSnapshot := true, procSnapshot := true, laterCancelMarks := true,
+    processLinked := true }
 
 /-- One entry of `pollfds[]`/`pollwatches[]`.  `revents = none`: never written (uninitialised). -/
 structure PollSlot where
@@ -209,6 +219,12 @@ structure PollSlot where
   events : Nat
   revents : Option Nat
   watch : Option Nat
+deriving DecidableEq, Repr, Inhabited
+
+/-- Where the file-scope `signal_observer` of evloop-default.c points, seen from the instance whose
+    `struct Tickit`/`EventLoopData` the state describes: at this instance's loop, at the loop of another
+    toplevel instance of the process, or nowhere (`NULL`). -/
+inductive Observer | self | other | none
 deriving DecidableEq, Repr, Inhabited
 
 /-- The harness's table of watch slots. -/
@@ -242,6 +258,10 @@ structure St where
   signums : List Int := []           -- `nsignals` = length
   watched : List Int := []           -- watched_signals
   pendingSig : List Int := []        -- pending_signals (members among 1 … NSIG-1)
+  /-- `signal_observer` (file scope of evloop-default.c), relative to this instance -/
+  observer : Observer := .self
+  /-- `signal_observer->pending_signals` when the observer is another instance's loop (Model/EvLoopMulti.lean) -/
+  otherPending : List Int := []
   -- process / kernel
   blocked : List Int := []
   handled : List Int := []
@@ -258,6 +278,8 @@ structure St where
   children : List Proc := []
   -- harness
   slots : List SlotRec := []
+  /-- ghost: the slot numbers the history has called `tickit_watch_cancel` for (nothing reads it; Props/C17) -/
+  cancelReq : List Int := []
   behs : List Beh := []
   log : List Ev := []                -- events of the current operation, newest first
 deriving Repr, Inhabited
@@ -304,12 +326,19 @@ def setErase (s : Int) (l : List Int) : List Int := l.filter (· ≠ s)
 
 /-! ### the kernel's signal semantics (hypothesis `OsPpoll` of C18, implemented by the harness) -/
 
+/-- `sighandler` (evloop-default.c 52–57): `if(signal_observer) sigaddset(&signal_observer->pending_signals, signum);` -/
+def sigRecord (st : St) (s : Int) : St :=
+  match st.observer with
+  | .self => { st with pendingSig := setInsert s st.pendingSig }
+  | .other => { st with otherPending := setInsert s st.otherPending }
+  | .none => st
+
 /-- `raise(s)` while the process runs (outside `ppoll`): blocked → stays pending; otherwise a handler
-    (the loop's `sighandler`: `sigaddset(&pending_signals, s)`) or the default action runs. -/
+    (the loop's `sighandler`) or the default action runs. -/
 def raiseSig (st : St) (s : Int) : St :=
   if !st.isOk then st
   else if st.blocked.contains s then { st with kpending := setInsert s st.kpending }
-  else if st.handled.contains s then { st with pendingSig := setInsert s st.pendingSig }
+  else if st.handled.contains s then sigRecord st s
   else if sigTerminates s then { st with status := .killed s }
   else st
 
@@ -462,11 +491,22 @@ def ensureSigchld (st : St) : St :=
   | some _ => st
   | none => { (watchSignal st SIGCHLD 0 (-3)).1 with sigchldwatch := some (watchSignal st SIGCHLD 0 (-3)).2 }
 
+/-- `watch->process.notify = n;` -/
+def setNotify (st : St) (a : Nat) (n : Option Nat) : St := st.setW a { st.getW a with notify := n }
+
+/-- Repaired `tickit_watch_process` for a child that has already exited, after `tickit_watch_later` returned
+    (`r` = state and handle): `watch->process.notify = <the later>; insert_watch(&t->processes, flags, watch);` -/
+def linkNotified (r : St × Nat) (a : Nat) (flags : Nat) : St :=
+  { (insertWatch (setNotify r.1 a (some r.2)) (setNotify r.1 a (some r.2)).procs flags a).1 with
+    procs := (insertWatch (setNotify r.1 a (some r.2)) (setNotify r.1 a (some r.2)).procs flags a).2 }
+
 /-- The tail of `tickit_watch_process` (lines 685–698): a child that has already exited is handed to a
     `later` and the watch is *not* linked into `t->processes`. -/
 def linkProcess (st : St) (a : Nat) (pid : Int) (flags : Nat) : St :=
   let r := waitpid st pid
-  if r.ret > 0 then (watchLater (r.st.setW a { r.st.getW a with wstatus := r.wstatus }) 0 (-4) a).1
+  if r.ret > 0 then
+    if st.cfg.processLinked then linkNotified (watchLater (r.st.setW a { r.st.getW a with wstatus := r.wstatus }) 0 (-4) a) a flags
+    else (watchLater (r.st.setW a { r.st.getW a with wstatus := r.wstatus }) 0 (-4) a).1
   else { (insertWatch r.st r.st.procs flags a).1 with procs := (insertWatch r.st r.st.procs flags a).2 }
 
 /-- `tickit_watch_process` (the default loop has no `process` hook). -/
@@ -514,15 +554,38 @@ def cancelFound (st : St) (a : Nat) (w : Watch) (l : List Nat) : St :=
   cancelRest ((cancelHook (cancelNotify (setListOf st w.type (l.erase a)) a w) w.type w.evi).free a)
     ((l.dropWhile (· ≠ a)).drop 1)
 
+/-- The repaired tail of `tickit_watch_cancel`: a deferred callback that was not found in `t->laters` belongs to the
+    batch the running iteration has detached; the loop still owns it.
+    `if(watch->flags & UNBIND) (*watch->fn)(t, UNBIND, …); watch->type = WATCH_NONE;` -/
+def cancelDetached (st : St) (a : Nat) : St :=
+  (cancelNotify st a (st.getW a)).setW a { (cancelNotify st a (st.getW a)).getW a with type := .none }
+
 /-- `tickit_watch_cancel` (lines 701–770).  The loop reads `->next` of every node of the list the
     watch's type selects (also after it has found the watch). -/
-def watchCancel (st : St) (a : Nat) : St :=
+def watchCancel0 (st : St) (a : Nat) : St :=
   if !st.isOk then st
   else if !st.live a then st.fail .cancelType
   else if (st.getW a).type = .none then st
   else if !st.allLive ((listOf st (st.getW a).type).takeWhile (· ≠ a)) then st.fail .cancelWalk
-  else if !(listOf st (st.getW a).type).contains a then st
+  else if !(listOf st (st.getW a).type).contains a then
+    (if st.cfg.laterCancelMarks = true ∧ (st.getW a).type = .later then cancelDetached st a else st)
   else cancelFound st a (st.getW a) (listOf st (st.getW a).type)
+
+/-- Will `tickit_watch_cancel` find `a` — a process watch — in `t->processes`? -/
+def cancelFindsProcess (st : St) (a : Nat) : Bool :=
+  st.isOk && st.live a && (st.getW a).type == .process && st.procs.contains a
+
+/-- `tickit_watch_cancel`.  `watchCancel0` is the function for every watch; repaired, a process watch found in
+    `t->processes` whose child had already exited (`process.notify` set) also cancels the deferred callback that
+    would deliver it: `if(this->process.notify) tickit_watch_cancel(t, this->process.notify);` — in the C text
+    between the hook and `free(this)`; it touches only `t->laters` and that deferred callback (which asked for no
+    notification), so the model performs it after the rest. -/
+def watchCancel (st : St) (a : Nat) : St :=
+  if st.cfg.processLinked = true ∧ cancelFindsProcess st a = true then
+    match (st.getW a).notify with
+    | some l => watchCancel0 (watchCancel0 st a) l
+    | none => watchCancel0 st a
+  else watchCancel0 st a
 
 /-! ### the harness's callback: behaviour tables -/
 
@@ -539,7 +602,7 @@ def doRegister (st : St) (k : Int) (reg : St → St × Nat) : St :=
 def doCancel (st : St) (k : Int) : St :=
   match findSlot st k with
   | none => st.emit (.skip k)
-  | some r => watchCancel st r.handle
+  | some r => watchCancel { st with cancelReq := k :: st.cancelReq } r.handle
 
 def validSig (s : Int) : Bool := SIGS.contains s
 def validPid (p : Int) : Bool := PID0 ≤ p && p < PID0 + NPID
@@ -647,10 +710,14 @@ def onSigchldAny (fuel : Nat) (st : St) : St :=
     (if !st.allLive st.procs then st.fail .procLoopThis else procSnapLoop st st.procs)
   else onSigchld fuel st st.procs.head?
 
+/-- Repaired `process_notify`: `watch->process.notify = NULL;` -/
+def clearNotify (st : St) (a : Nat) : St :=
+  if st.cfg.processLinked then setNotify st a none else st
+
 /-- `process_notify` (lines 655–662), the callback of the internal `later` of a pre-exited child. -/
 def processNotify (st : St) (later : Nat) : St :=
   if !st.live (st.getW later).puser then st.fail .invokeWatchType
-  else invokeWatch st (st.getW later).puser EV_FIRE
+  else invokeWatch (clearNotify st (st.getW later).puser) (st.getW later).puser EV_FIRE
          (.proc (st.getW (st.getW later).puser).pid (st.getW (st.getW later).puser).wstatus)
 
 /-! ### tickit.c: tickit_evloop_next_timer_msec, tickit_evloop_invoke_timers -/
@@ -733,16 +800,24 @@ def laterCb (st : St) (a : Nat) : St :=
   else if (st.getW a).slot = -4 then processNotify st a
   else st
 
+/-- The repaired loop, before it invokes an entry: `later->flags &= ~TICKIT_BIND_UNBIND;` (the invocation is the
+    unbind notification: cancelling the entry from inside its own callback must not give it another one). -/
+def laterPre (st : St) (a : Nat) : St :=
+  if st.cfg.laterCancelMarks then st.setW a { st.getW a with flags := (st.getW a).flags - ((st.getW a).flags &&& BIND_UNBIND) }
+  else st
+
 /-- The `while(later)` loop over the detached queue (lines 823–829).  Returns the state and the deferred
-    callbacks it invoked, in order (read only by the theorems of C17). -/
+    callbacks it invoked, in order (read only by the theorems of C17).  Repaired: an entry marked `WATCH_NONE`
+    (cancelled by an earlier callback of this iteration) is freed without being invoked. -/
 def laterLoopT (st : St) : List Nat → St × List Nat
   | [] => (st, [])
   | a :: rest =>
     if !st.isOk then (st, [])
     else if !st.live a then (st.fail .laterLoopThis, [])
-    else if !(laterCb st a).isOk then (laterCb st a, [a])
-    else if !(laterCb st a).live a then ((laterCb st a).fail .laterLoopThis, [a])
-    else ((laterLoopT ((laterCb st a).free a) rest).1, a :: (laterLoopT ((laterCb st a).free a) rest).2)
+    else if st.cfg.laterCancelMarks = true ∧ (st.getW a).type ≠ .later then laterLoopT (st.free a) rest
+    else if !(laterCb (laterPre st a) a).isOk then (laterCb (laterPre st a) a, [a])
+    else if !(laterCb (laterPre st a) a).live a then ((laterCb (laterPre st a) a).fail .laterLoopThis, [a])
+    else ((laterLoopT ((laterCb (laterPre st a) a).free a) rest).1, a :: (laterLoopT ((laterCb (laterPre st a) a).free a) rest).2)
 
 def laterLoop (st : St) (l : List Nat) : St := (laterLoopT st l).1
 
@@ -837,9 +912,13 @@ def readyOf (st : St) (fd : Int) : Nat :=
 def pollRevents (st : St) (s : PollSlot) : Nat :=
   if FD0 ≤ s.fd && s.fd < FD0 + NFD then readyOf st s.fd &&& (s.events ||| POLLERR ||| POLLHUP ||| POLLNVAL) else 0
 
-/-- Deliver every pending signal under the loop's (empty) mask: the loop's handler records it. -/
+/-- Deliver every pending signal under the loop's (empty) mask: the handler records it in the loop
+    `signal_observer` points at — which need not be the loop that waits. -/
 def deliverPending (st : St) : St :=
-  { st with pendingSig := st.kpending.foldl (fun acc s => setInsert s acc) st.pendingSig, kpending := [] }
+  match st.observer with
+  | .self => { st with pendingSig := st.kpending.foldl (fun acc s => setInsert s acc) st.pendingSig, kpending := [] }
+  | .other => { st with otherPending := st.kpending.foldl (fun acc s => setInsert s acc) st.otherPending, kpending := [] }
+  | .none => { st with kpending := [] }
 
 /-- The kernel writes `revents` of every entry. -/
 def pollScan (st : St) : St :=
@@ -1003,8 +1082,14 @@ def cancelSigchld (st : St) : St :=
   | some a => watchCancel st a
   | none => st
 
+/-- `evloop_destroy` (lines 118–135): `if(signal_observer == evdata) signal_observer = NULL;` -/
+def observerAfterDestroy : Observer → Observer
+  | .self => .none
+  | o => o
+
 def destroyFinish (st : St) : St :=
-  if st.isOk then { st with alive := false, iow := [], timers := [], laters := [], signals := [], procs := [] } else st
+  if st.isOk then { st with alive := false, iow := [], timers := [], laters := [], signals := [], procs := [],
+                            observer := observerAfterDestroy st.observer } else st
 
 /-- `tickit_destroy`. -/
 def destroy (st : St) : St :=
